@@ -20,3 +20,6 @@ def run(rep, tier, seed):
                  "beyond_max_resource", "value_not_from_table", "backend_raised"}
     rep.extra["simulator_backend_flags"] = sim_tuner.campaign(
         rep, tier, seed, lambda r, t, m, tag: c10.validate_traces(r, t, m, tag, flags=sim_flags))
+    # binding 3: the file / poll based LocalBackend itself (real processes, stdout parsing, status files), lock step
+    from harness.props import local_backend
+    local_backend.campaign(rep, "C02", tier, seed)
